@@ -17,8 +17,6 @@ import (
 	"sync"
 	"sync/atomic"
 	"time"
-
-	"verif/h"
 )
 
 // Grace periods. Upper bounds are bounded-progress watchdogs only (DESIGN §1): 60 s without any
@@ -608,5 +606,3 @@ func writeStream(conn net.Conn, seed uint64, class int, n int64, rng *rand.Rand,
 	}
 	return done, nil
 }
-
-var _ = h.Now
